@@ -101,10 +101,99 @@ async def correspond(ctx):
     await kcorr.run(ctx, SCOPES, observers=[Observer], salt="c11")
 
 
+async def cli_targets(ctx):
+    """Targets as the user types them: `stepup build <targets>` started in any directory of the project
+    (STEPUP_ROOT pointing at the root) must hand the director the root-relative paths of the files
+    the user named from where they stand.  Runs the real `tui._async_build` with the parser's own
+    arguments; only the launch of the director process is replaced (its argv is captured)."""
+    import os
+    import shutil
+    import sys
+    import tempfile
+
+    from stepup.core import __main__ as stepup_main
+    from stepup.core import tui
+
+    r = ctx.rng("cli-targets")
+    saved = (tui._supervise_director, os.getcwd(), os.environ.get("STEPUP_ROOT"), sys.argv)
+    captured = {}
+
+    async def fake_supervise(argv, *a, **k):
+        captured["argv"] = list(argv)
+        return 0
+
+    tui._supervise_director = fake_supervise
+    base = os.path.realpath(tempfile.mkdtemp(prefix="c11-cli-"))
+    try:
+        for i in range(ctx.budget(40, 400)):
+            depth = r.choice([0, 1, 1, 2])
+            root = os.path.join(base, f"p{i}")
+            sub = os.path.join(root, *["sub", "deep"][:depth])
+            os.makedirs(os.path.join(sub, "gen"), exist_ok=True)
+            os.makedirs(os.path.join(root, "gen"), exist_ok=True)
+            open(os.path.join(root, "plan.py"), "w").write("#!/usr/bin/env python3\n")
+            raw = []
+            for _ in range(r.randint(1, 3)):
+                name = r.choice(["out.txt", "gen/", "gen/deep.txt", "./out.txt", "x/../out.txt"])
+                style = r.random()
+                if style < 0.6:
+                    raw.append(name)
+                elif style < 0.8 and depth:
+                    raw.append("../" + name)
+                else:
+                    raw.append(os.path.join(sub, name))
+            os.chdir(sub)
+            os.environ["STEPUP_ROOT"] = root if r.random() < 0.5 else os.path.relpath(root, sub)
+            captured.clear()
+            try:
+                sys.argv = ["stepup", "build", "-j", "1", *raw]
+                import contextlib
+                import io
+
+                with contextlib.redirect_stdout(io.StringIO()):
+                    parser, _loader = stepup_main._setup_cli()
+                    args = parser.parse_args(sys.argv[1:])
+                    await tui._async_build(args)
+            except SystemExit:
+                pass
+            except Exception as exc:
+                ctx.finding(Finding(PID, "cli-targets-error", f"stepup build {raw} in {os.path.relpath(sub, base)}: "
+                                    f"{type(exc).__name__}: {exc}", {"raw": raw, "cwd": os.path.relpath(sub, root)}))
+                continue
+            finally:
+                os.chdir(base)
+            argv = captured.get("argv", [])
+            got_files = sorted(a.split("=", 1)[1] for a in argv if a.startswith("--target="))
+            got_dirs = sorted(a.split("=", 1)[1] for a in argv if a.startswith("--target-dir="))
+            want_files, want_dirs = [], []
+            for t in raw:
+                abs_t = os.path.normpath(t if os.path.isabs(t) else os.path.join(sub, t))
+                rel = os.path.relpath(abs_t, root)
+                (want_dirs if t.endswith("/") else want_files).append(rel + ("/" if t.endswith("/") else ""))
+            ctx.stats.count("cli-target-cases")
+            ctx.stats.case(("cli", i), depth > 0)
+            if (got_files, got_dirs) != (sorted(want_files), sorted(want_dirs)):
+                ctx.finding(Finding(PID, "cli-target-names-another-file",
+                                    f"`stepup build {' '.join(raw)}` typed in {os.path.relpath(sub, root) or '.'} hands the director "
+                                    f"targets {got_files} dirs {got_dirs}; the user named {sorted(want_files)} dirs {sorted(want_dirs)}",
+                                    {"raw": raw, "cwd": os.path.relpath(sub, root), "stepup_root_env": os.environ["STEPUP_ROOT"],
+                                     "got": [got_files, got_dirs], "want": [sorted(want_files), sorted(want_dirs)]}))
+                break
+    finally:
+        tui._supervise_director, cwd, env_root, sys.argv = saved
+        os.chdir(cwd)
+        if env_root is None:
+            os.environ.pop("STEPUP_ROOT", None)
+        else:
+            os.environ["STEPUP_ROOT"] = env_root
+        shutil.rmtree(base, ignore_errors=True)
+
+
 async def search(ctx):
+    await cli_targets(ctx)
     import corr_kernel as _ck
 
-    await _ck.run_scenarios(ctx, lambda ctx, run_: Observer(ctx, run_), ["nested_chain", "amended_consumer_rerun"])
+    await _ck.run_scenarios(ctx, lambda ctx, run_: Observer(ctx, run_), ["nested_chain", "amended_consumer_rerun", "retarget_optional"])
     import contextlib
 
     import corr_kernel
